@@ -225,7 +225,7 @@ class Ctx(object):
         try:
             with _os.fdopen(fd, 'w') as fh: fh.write(txt)
             try:
-                p = subprocess.run(['/usr/bin/z3', '-T:60', path], capture_output=True, text=True, timeout=90)
+                p = subprocess.run(['/usr/bin/z3', '-T:20', path], capture_output=True, text=True, timeout=40)
                 out = p.stdout.strip().split('\n')[0] if p.stdout.strip() else ''
                 err = '(error' in p.stdout
             except Exception as ex:
